@@ -1102,6 +1102,19 @@ impl State {
                 let e = self
                     .dict_entry(&name)
                     .ok_or_else(|| Xerr::UnknownWord(name.clone()))?;
+                if self.ctx.mode == ContextMode::MetaEval {
+                    // what a meta block sees goes away with it: bind for this call only
+                    let op = match e {
+                        Entry::Constant(c) => self.load_value_opcode(c.clone()),
+                        Entry::Variable(a) => Opcode::Load(*a),
+                        Entry::Function { xf: Xfn::Interp(x), .. } => Opcode::Call(*x),
+                        Entry::Function { xf: Xfn::Native(x), .. } => Opcode::NativeCall(*x),
+                    };
+                    let stub = std::mem::replace(&mut self.code[ip], op);
+                    let res = self.fetch_and_run();
+                    self.code[ip] = stub;
+                    return res;
+                }
                 match e {
                     Entry::Constant(c) => {
                         let op = self.load_value_opcode(c.clone());
